@@ -4,7 +4,7 @@ tier=$1; seeds=$2; shift 2
 props=${@:-C01 C02 C03 C04 C05 C06 C07 C08 C09 C10 C11 C12 C13 C14 C15 C16 C17 C18 C19 C20}
 for s in $seeds; do for p in $props; do
   t0=$(date +%s)
-  out=$(VERIF_SEED=$s PYTHONHASHSEED=0 /venv/bin/python -m vmon $p --tier $tier --no-evidence 2>&1); rc=$?
+  out=$(VERIF_SEED=$s /venv/bin/python -m vmon $p --tier $tier --no-evidence 2>&1); rc=$?
   echo "SWEEP tier=$tier seed=$s $p rc=$rc wall=$(( $(date +%s) - t0 ))s $(echo "$out" | grep -E '^(VIOLATION|INCONCLUSIVE|KNOWN-FINDING)' | cut -c1-220 | tr '\n' '|')"
   if [ $rc -ne 0 ]; then echo "$out" | grep -E -A3 '^(VIOLATION|INCONCLUSIVE)' | head -30; fi
 done; done
